@@ -244,10 +244,33 @@ def disabled_probe(out):
     cases += [(schema2, q, what, ex) for q, what in (("{ a o { b __typename } }", "__typename-nested"), ("{ a u { __typename ... on O { b } } }", "__typename-abstract"),
                                                     ("mutation { m { b } __typename }", "__typename-mutation-root"))
               for ex in (Executor, BlockingExecutor)]
+    # ... and under whatever response key: a meta field behind an ALIAS is still a meta field (hidden), an ordinary field whose alias
+    # looks like a meta field is still an ordinary field (served)
+    cases += [(schema2, q, what, ex) for q, what in (("{ a zs: __schema { queryType { name } } }", "__schema-aliased"), ('{ a zt: __type(name: "Query") { name } }', "__type-aliased"),
+                                                    ("{ a zk: __typename }", "__typename-aliased"), ("{ a o { b zk: __typename } }", "__typename-aliased-nested"))
+              for ex in (Executor, BlockingExecutor)]
+    for ex in (Executor, BlockingExecutor):
+        for q, want in (("{ __typename: a }", {"__typename": 1}), ("{ a o { __type: b } }", {"a": 1, "o": {"__type": 2}}), ("{ __schema: a zz: a }", {"__schema": 1, "zz": 1})):
+            res = process_graphql_query(schema2, q, disable_introspection=True, executor_cls=ex)
+            import json as _json
+            if res.errors or _json.loads(_json.dumps(res.data)) != want:
+                out.setdefault("intro/disabled-breaks-ordinary-field/alias-like-a-meta-field/%s" % ("optimised" if ex is BlockingExecutor else "generic"),
+                               ["an ordinary field under an alias that looks like a meta field is affected by disabling introspection", {"query": q, "data": repr(res.data), "expected": want}])
     for sch, q, what, ex in cases:
         what = "%s/%s" % (what, "optimised" if ex is BlockingExecutor else "generic")
         res = process_graphql_query(sch, q, disable_introspection=True, executor_cls=ex)
         data = res.data or {}
+        if "aliased" in what:
+            def aliased(d, acc):
+                for k, v in (d or {}).items():
+                    if k in ("zs", "zt", "zk") and v is not None:
+                        acc.append(k)
+                    if isinstance(v, dict):
+                        aliased(v, acc)
+                return acc
+            if aliased(data, []):
+                out.setdefault("intro/disabled-leaks/%s" % what, ["introspection data visible (behind an alias) although disabled", {"query": q, "data": repr(data)}])
+                continue
 
         def flat(d, acc):
             for k, v in (d or {}).items():
